@@ -99,6 +99,41 @@ ShapeActsK(h, k) ==
       : i \in IdOptions(k), S \in Masks(k), e \in {x \in ExtraSet : XmlOK(x)} }
 ShapeActs(h) == UNION { ShapeActsK(h, k) : k \in KindSet }
 
+(* Mode "rdf": the PROV-O expressible space of C07 as a generator: names under the declared   *)
+(* prefix ex, first two formal arguments present, no mention, anonymous "simple" relations    *)
+(* bare, values restricted to the claimed kinds                                               *)
+RdfSimple == {"attribution", "communication", "delegation", "influence", "specialization",
+              "alternate", "membership"}
+RdfVals == {"none", "str", "empty", "int", "big", "true", "false", "dt", "uri", "qn", "lang", "two", "nasty"}
+RdfExtras == {<<"other", v>> : v \in RdfVals}
+             \cup {<<"role", "str">>, <<"label", "str">>, <<"label", "lang">>, <<"location", "str">>,
+                   <<"location", "qn">>, <<"value", "int">>, <<"type", "qn">>, <<"type", "str">>}
+RdfMasks(k) == {S \in Masks(k) : k \in Elements \/ {1, 2} \subseteq S}
+RdfOK(k, i, S, e) ==
+  /\ k # "mention"
+  /\ (k \in RdfSimple /\ i = <<>>) => (e[2] = "none" /\ S = {1, 2})
+  /\ (e[1] = "role") => k \in {"generation", "usage", "association", "start", "end", "invalidation", "attribution", "delegation"}
+RdfActsK(h, k) ==
+  { [op |-> "NewRec", h |-> h, k |-> k, via |-> "new_record", id |-> x[1],
+     formals |-> FormalsOf(k, x[2]), extras |-> ExtrasOf(x[3])]
+      : x \in {y \in IdOptions(k) \X RdfMasks(k) \X RdfExtras : RdfOK(k, y[1], y[2], y[3])} }
+RdfActs(h) == UNION { RdfActsK(h, k) : k \in KindSet }
+RdfSecond ==
+  { [op |-> "NewRec", h |-> "d1", k |-> "entity", via |-> "new_record", id |-> <<NamePL("ex", <<"r2">>)>>,
+     formals |-> <<>>, extras |-> << <<NameQN("ex", A, <<"attr">>), [t |-> "int", v |-> "7"]>> >>],
+    [op |-> "NewRec", h |-> "d1", k |-> "entity", via |-> "new_record", id |-> <<NamePL("ex", <<"r2">>)>>,
+     formals |-> <<>>, extras |-> << <<NameQN("ex", A, <<"attr">>), [t |-> "str", v |-> "s1"]>> >>],
+    [op |-> "Bundle", h |-> "d1", id |-> NamePL("ex", <<"b1">>), out |-> "b1"] }
+  \cup (IF "b1" \in DOMAIN ms.con
+        THEN { [op |-> "NewRec", h |-> "b1", k |-> "agent", via |-> "new_record",
+                id |-> <<NamePL("ex", <<"ag">>)>>, formals |-> <<>>, extras |-> <<>>],
+               [op |-> "NewRec", h |-> "b1", k |-> "usage", via |-> "new_record", id |-> <<>>,
+                formals |-> << <<"activity", Ref(NamePL("ex", Y))>>, <<"entity", Ref(NamePL("ex", X))>>,
+                               <<"time", [t |-> "dt", v |-> "t1"]>> >>, extras |-> <<>>] }
+        ELSE {})
+(* every bundle of an expressible document is non-empty *)
+RdfComplete == \A h \in DOMAIN ms.con : ms.con[h].kind = "bun" => ms.con[h].recs # <<>>
+
 (* second records next to the first: same identifier again (same / other kind), and a bundle *)
 SecondActs ==
   { [op |-> "NewRec", h |-> "d1", k |-> k, via |-> "new_record", id |-> <<NamePL("ex", <<"r">>)>>,
@@ -168,8 +203,11 @@ Build ==
      THEN \/ (Len(hist) = NSetup /\ \E a \in ShapeActs("d1") : Step(a))
           \/ (Len(hist) > NSetup /\ \E a \in SecondActs : Step(a))
      ELSE IF Mode = "graph" THEN \E a \in GraphActs : Step(a)
+     ELSE IF Mode = "rdf"
+     THEN \/ (Len(hist) = NSetup /\ \E a \in RdfActs("d1") : Step(a))
+          \/ (Len(hist) > NSetup /\ \E a \in RdfSecond : Step(a))
      ELSE \E a \in NsActs \cup NsRecActs : DefaultOK(a) /\ Step(a)
-Export == ~Finished /\ Len(hist) > NSetup /\ \E a \in Final : Step(a)
+Export == ~Finished /\ Len(hist) > NSetup /\ (Mode = "rdf" => RdfComplete) /\ \E a \in Final : Step(a)
 Next == Build \/ Export
 Spec == Init /\ [][Next]_vars
 
